@@ -1,6 +1,6 @@
 #!/bin/bash
 # Runs every registered check (default tier quick), N at a time (default 3); one line per property.
-TIER="${1:-quick}"; N="${2:-3}"
+TIER="${1:-quick}"; N="${2:-1}"   # one check at a time: each already uses up to 16 processes; 3 at once overloads 16 cores and obligations time out (INCONCLUSIVE)
 cd "$(dirname "$0")"
 one() {
   p=$1; s=$(date +%s)
